@@ -1094,15 +1094,22 @@ class Parser:
                     self.i += 1
                     name = self.ident()
                     turbo = False
+                    turbo_ty = None
                     if self.at("::"):
                         self.i += 1
                         if not self.at("<"):
                             self.err("expected `<` after `::` in a method call")
+                        i0_ = self.i
                         self.skip_generics()
                         turbo = True
+                        # `recv.m::<Ident>(..)`: the one type argument is kept (units with "turbo_methods")
+                        if self.i - i0_ == 3 and self.t[i0_ + 1].kind == "ident":
+                            turbo_ty = self.t[i0_ + 1].val
                     if self.at("("):
                         args = self.p_args()
                         e = N("mcall", t.line, recv=e, name=name, args=args, turbo=turbo)
+                        if turbo_ty is not None:
+                            e.turbo_ty = turbo_ty
                     else:
                         e = N("field", t.line, e=e, name=name)
             elif self.at("["):
